@@ -930,6 +930,53 @@ def _starts(shapes, pats, rootings, extra=()):
     return out
 
 
+def internal_label_scope(ctx):
+    """trees whose INTERNAL nodes carry taxa: pruning / retaining by a label or taxon that only an internal node carries removes no leaf (the filters
+    apply to leaves unless the caller says otherwise), and asking for internal nodes as well removes exactly the clade named"""
+    sc = "internal-node-taxa@prune-by-label"
+    ctx.scope(sc, rule="3 trees with taxa on internal nodes x {prune_taxa_with_labels, prune_taxa, retain_taxa_with_labels of the complement} x every internal label "
+                       "x suppress_unifurcations x is_apply_filter_to_internal_nodes {default, True}: leaf taxa afterwards = leaf taxa before minus the leaves "
+                       "named (none by default; the leaves below the named node when internal nodes are included); tree well formed", exhaustive=True)
+    for nw in ("((A,B)X,(C,(D,E)Z)Y)R;", "((A,B)X,C)R;", "(A,(B,(C,D)Z)Y);"):
+        probe = dendropy.Tree.get(data=nw, schema="newick", suppress_internal_node_taxa=False)
+        internal = [nd.taxon.label for nd in probe.preorder_internal_node_iter() if nd.taxon is not None and nd is not probe.seed_node]
+        for lab in internal:
+            for api in ("prune_taxa_with_labels", "prune_taxa", "retain_taxa_with_labels"):
+                for sup in (True, False):
+                    for inc in (None, True):
+                        t = dendropy.Tree.get(data=nw, schema="newick", suppress_internal_node_taxa=False)
+                        before = sorted(l.taxon.label for l in t.leaf_node_iter())
+                        below = sorted(l.taxon.label for l in t.find_node_with_taxon_label(lab).leaf_iter())
+                        key = "%s|%s(%s)|sup=%r|internal=%r" % (nw, api, lab, sup, inc)
+                        ctx.case(sc, key, True)
+                        kw = dict(suppress_unifurcations=sup)
+                        if inc:
+                            kw["is_apply_filter_to_internal_nodes"] = True
+                        try:
+                            if api == "prune_taxa_with_labels":
+                                t.prune_taxa_with_labels([lab], **kw)
+                            elif api == "prune_taxa":
+                                t.prune_taxa([t.taxon_namespace.get_taxon(lab)], **kw)
+                            else:
+                                if inc:
+                                    continue
+                                t.retain_taxa_with_labels([x.label for x in t.taxon_namespace if x.label != lab], suppress_unifurcations=sup)
+                        except Exception as ex:  # noqa
+                            ctx.fail("%s@internal_taxa.raises" % api, dict(key=key, scope=sc), detail="%s: %s: %s" % (key, type(ex).__name__, ex))
+                            continue
+                        errs = S.arborescence_errors(t)
+                        after = sorted(l.taxon.label for l in t.leaf_node_iter() if l.taxon is not None)
+                        want = [x for x in before if x not in below] if inc else before
+                        if errs:
+                            ctx.fail("%s@internal_taxa.wellformed" % api, dict(key=key, scope=sc), detail="%s: %s" % (key, errs[0]))
+                        elif not inc and after != want:
+                            ctx.fail("%s@internal_taxa.leaf_taxa" % api, dict(key=key, scope=sc),
+                                     detail="%s: leaf taxa %r, required %r (the label names an internal node only, and the filter applies to leaves)" % (key, after, want))
+                        elif inc and not set(below).isdisjoint(after):
+                            ctx.fail("%s@internal_taxa.leaf_taxa" % api, dict(key=key, scope=sc),
+                                     detail="%s: the clade of %s was asked away with internal nodes included, leaves %r remain" % (key, lab, sorted(set(below) & set(after))))
+
+
 def t2(ctx):
     thorough = ctx.tier == "thorough"
     reported = {}
@@ -990,6 +1037,7 @@ def t2(ctx):
                    "collapse_clade, collapse_basal_bifurcation, resolve_polytomies, suppress_unifurcations, encode_bipartitions, add_child, "
                    "parent_node assignment, shuffle_taxa, ladderize; default options, every target) from every ordered shape with 2..3 leaves",
                    True, explore, fan_out(st, [-1, -1, -1]), reported, kf)
+    internal_label_scope(ctx)
     # ---- random long histories
     rng = rng_for(ctx, 3)
     items = []
@@ -1006,6 +1054,25 @@ def t2(ctx):
 
 def replay(ctx, rec):
     w = rec["witness"]
+    if w.get("scope") == "internal-node-taxa@prune-by-label":
+        class _C(object):
+            def __init__(self):
+                self.hits = []
+
+            def scope(self, *a, **k):
+                pass
+
+            def case(self, *a, **k):
+                pass
+
+            def fail(self, name, wit, detail=None):
+                if wit.get("key") == w.get("key") and name == rec["obligation"]:
+                    self.hits.append(detail)
+        c = _C()
+        internal_label_scope(c)
+        for h in c.hits:
+            print("  " + str(h))
+        return not c.hits
     spec = w["spec"]
     spec["shape"] = _tup(spec["shape"])
     t, env, fails, broken = run_history(spec, w["history"])
